@@ -49,6 +49,8 @@ def canary_edits(unit):
     showing that no precondition / invariant set is contradictory and that the bodies are really being checked."""
     extra, n = {}, 0
     for it in unit.items:
+        if it.wrap and 'verifier::external' in it.wrap[0]:
+            continue  # compiled but not under contract: nothing to guard
         try:
             with open(vunit.pinned_path(unit, it), encoding='utf-8') as f:
                 pinned = f.read()
